@@ -28,7 +28,7 @@ from ..core.shrink import ShrinkBudget, ddmin_list, shrink_each
 META: Dict[str, Any] = {
     "id": "C05",
     "level": "exploration",
-    "pools": [{"backend": "c"}, {"backend": "py"}],
+    "pools": [{"backend": "c"}, {"backend": "py"}, {"backend": "c", "optimize": 1}],
     "tiers": {
         "quick": {"runs": 7000, "chunk": 60, "wall": 75, "chunk_wall": 400},
         "thorough": {"runs": 400000, "chunk": 150, "wall": 1200, "chunk_wall": 900},
@@ -61,7 +61,7 @@ STATE: Dict[str, Any] = {}
 
 
 def pool_of(rs: int, index: int) -> int:
-    return h64("pool", rs) % 2
+    return h64("pool", rs) % 3
 
 
 # ------------------------------------------------------------------ ground truth walk
